@@ -23,7 +23,8 @@ import units as U
 from rtok import tokenize, find_depth0, match_close, is_p, is_id
 
 BUILD = os.path.join(ROOT, 'build')
-EVID = os.path.join(ROOT, 'evidence')
+# evidence of runs against a scratch copy of the repository (VERIF_REPO set by the self-tests) never lands in evidence/
+EVID = os.path.join(ROOT, 'evidence') if os.environ.get('VERIF_REPO', '/repo') == '/repo' else os.path.join(ROOT, 'build', 'evidence_scratch')
 REPLAY = os.path.join(ROOT, 'replays')
 KNOWN = os.path.join(ROOT, 'known_findings.json')
 
